@@ -1,0 +1,51 @@
+//go:build verif
+// +build verif
+
+package headers
+
+import (
+	"context"
+
+	"github.com/pkg/errors"
+)
+
+// VerifClean is Clean with a caller-chosen prune depth, so that pruning is reachable in small
+// histories. It is the body of clean() with pruneDepth replaced by depth.
+func (repo *Repository) VerifClean(ctx context.Context, depth int) error {
+	repo.Lock()
+	defer repo.Unlock()
+
+	if err := repo.consolidate(ctx); err != nil {
+		return errors.Wrap(err, "consolidate")
+	}
+
+	if err := repo.saveMainBranch(ctx); err != nil {
+		return errors.Wrap(err, "save main branches")
+	}
+
+	if err := repo.prune(ctx, depth); err != nil {
+		return errors.Wrap(err, "prune")
+	}
+
+	if err := saveInvalidHashes(ctx, repo.store, repo.invalidHashes); err != nil {
+		return errors.Wrap(err, "invalid hashes")
+	}
+
+	return nil
+}
+
+// VerifLoad is Load with a caller-chosen prune depth.
+func (repo *Repository) VerifLoad(ctx context.Context, depth int) error {
+	repo.Lock()
+	defer repo.Unlock()
+
+	return repo.load(ctx, depth)
+}
+
+// VerifBranchCount reports the number of branches held in memory (diagnostics only).
+func (repo *Repository) VerifBranchCount() int {
+	repo.Lock()
+	defer repo.Unlock()
+
+	return len(repo.branches)
+}
